@@ -91,6 +91,45 @@ ReportOuts(ev, v, tn) ==
   /\ LET miss == IF HeldAtU(v) THEN {} ELSE tn.r \ (SeqToSet(x.report) \cup SeqToSet(x.safe)) IN
      Chk(miss = {}, ev, "retained", "verdict", {"C12"}, {}, miss)
 
+\* ---- formatting verbs and the verbose rendering (C09); Sentry report (C15)
+CheckPV(ev, name, pv, v) ==
+  LET es == Entries(v, 0, FALSE)
+      n == Len(es)
+      wantTypes == [i \in 1..n |-> es[i].n.ty]
+      wantInd == [i \in 1..n |-> es[i].ind]
+      missing == IF pv.nent # n THEN {}
+                 ELSE {i \in 1..n : \/ ~(OwnDetailWords(es[i].n) \subseteq SeqToSet(pv.words[i]))
+                                    \/ (OwnDetailLit(es[i].n) # "" /\ OwnDetailLit(es[i].n) \notin SeqToSet(pv.lits[i]))}
+  IN
+  /\ Chk(pv.starts, ev, name \o ".starts", "verdict", {"C09"}, TRUE, FALSE)
+  /\ Chk(pv.nent = n, ev, name \o ".entries", "verdict", PropsFor({"C09"}, v), n, pv.nent)
+  /\ Chk(pv.depths = wantInd, ev, name \o ".depths", "verdict", PropsFor({"C09"}, v), wantInd, pv.depths)
+  /\ Chk(pv.types = wantTypes, ev, name \o ".types", "verdict", {"C09"}, wantTypes, pv.types)
+  /\ Chk(missing = {}, ev, name \o ".detail", "verdict", {"C09"}, {}, [i \in missing |-> es[i].n.ty])
+
+ReportFmt(ev, v, tn) ==
+  LET f == ev.obs.fmt
+      lib == v.ty \in LibTy
+  IN
+  IF tn.h \/ tn.dv THEN TRUE
+  ELSE
+  /\ Chk(~lib \/ f.badDirect = <<>>, ev, "fmt.direct", "verdict", {"C09"}, <<>>, f.badDirect)
+  /\ Chk(f.badFormattable = <<>>, ev, "fmt.formattable", "verdict", {"C09"}, <<>>, f.badFormattable)
+  /\ Chk(~lib \/ f.badVerb = <<>>, ev, "fmt.otherverb", "verdict", {"C09"}, <<>>, f.badVerb)
+  /\ Chk(f.badVerbF = <<>>, ev, "fmt.otherverbF", "verdict", {"C09"}, <<>>, f.badVerbF)
+  /\ Chk(f.goSyntax, ev, "fmt.gosyntax", "verdict", {"C09"}, TRUE, FALSE)
+  /\ IF lib THEN CheckPV(ev, "pv", f.pv, v) ELSE TRUE
+  /\ CheckPV(ev, "pvf", f.pvf, v)
+
+ReportRep(ev, v) ==
+  LET r == ev.obs.rep
+      ns == Cardinality(StackLayers(v, reg))
+      want == [hasSource |-> HasSource(v, reg), srcPrefix |-> TRUE, headOK |-> TRUE, ncomp |-> Len(VisNodes(v)),
+               nexc |-> IF ns = 0 THEN 1 ELSE ns, synthetic |-> ns = 0, excFrames |-> TRUE, excModule |-> TRUE,
+               nstack |-> ns, types |-> TypeLines(v, reg), nilNothing |-> TRUE]
+      bad == {k \in DOMAIN want : r[k] # want[k]}
+  IN Chk(bad = {}, ev, "report", "verdict", PropsFor({"C15"}, v), [k \in bad |-> want[k]], [k \in bad |-> r[k]])
+
 \* ---- constructor steps: recorded vs ideal (= model: constructors have no deviation)
 ReportBuild(ev, new, tn) ==
   LET st == ev.step
@@ -102,6 +141,7 @@ ReportBuild(ev, new, tn) ==
   /\ IF o.nil \/ IsNil(v) THEN TRUE
      ELSE
      /\ ReportOuts(ev, v, tn)
+     /\ IF "fmt" \in DOMAIN o THEN ReportFmt(ev, v, tn) /\ ReportRep(ev, v) ELSE TRUE
      \* text is predicted for regular strings only (C10); otherwise conformance
      /\ IF tn.h \/ tn.dv THEN TRUE
         ELSE Chk(RSkel(o.tree) = MSkel(v), ev, "skel", "verdict", PropsFor({"C10"}, v), MSkel(v), RSkel(o.tree))
@@ -165,6 +205,7 @@ ReportHop(ev, base, new, tn) ==
   /\ IF o.nil \/ IsNil(v) \/ p.nil THEN TRUE
      ELSE
      /\ ReportOuts(ev, v, tn)
+     /\ IF "fmt" \in DOMAIN o /\ ~tn.dv THEN ReportFmt(ev, v, tn) /\ ReportRep(ev, v) ELSE TRUE
      /\ LET sites == IF tn.h \/ tn.dv THEN {} ELSE DiffSites(p.tree, o.tree) IN
         IF sites = {} THEN TRUE
         ELSE MisS(ev, "hop.skel", "verdict", PropsFor({PT}, v), sites, RSkel(p.tree), RSkel(o.tree))
